@@ -88,6 +88,7 @@ func checkMain(args []string) {
 	tier := os.Getenv("VERIF_TIER")
 	var id string
 	noEvidence := false
+	workOverride := ""
 	for i := 0; i < len(args); i++ {
 		switch args[i] {
 		case "--tier":
@@ -95,6 +96,9 @@ func checkMain(args []string) {
 			tier = args[i]
 		case "--no-evidence":
 			noEvidence = true
+		case "--work":
+			i++
+			workOverride = args[i]
 		case "--replay":
 			i++
 			data, err := os.ReadFile(args[i])
@@ -143,6 +147,9 @@ func checkMain(args []string) {
 		timeout *= 3
 	}
 	work := filepath.Join(verifDir, "work", id)
+	if workOverride != "" {
+		work = workOverride
+	}
 	_ = os.RemoveAll(work)
 	_ = os.MkdirAll(work, 0o755)
 	var reports []*Report
@@ -269,7 +276,9 @@ func checkMain(args []string) {
 			suffix = " no-failing-input-found"
 		}
 		rdata, _ := json.MarshalIndent(replay, "", " ")
-		_ = os.WriteFile(rp, rdata, 0o644)
+		if !noEvidence {
+			_ = os.WriteFile(rp, rdata, 0o644)
+		}
 		out = append(out, fmt.Sprintf("  failed obligation %s (%s) at %s: %s", o.Name, o.Result, o.Pos, o.Desc))
 		out = append(out, fmt.Sprintf("VIOLATION property=%s replay=%s%s", id, rp, suffix))
 	}
